@@ -133,6 +133,14 @@ func c17(args []string) error {
 		if want != "" && j != want {
 			appendok = false // the object kept a reference into the caller's buffer
 		}
+		// the slices AppendJSON(nil) and MarshalJSON return belong to the caller: overwriting them must not change later output
+		b1 := o.AppendJSON(nil)
+		b1 = append(b1[:0], bytes.Repeat([]byte("X"), cap(b1))...)
+		b2, _ := o.MarshalJSON()
+		b2 = append(b2[:0], bytes.Repeat([]byte("Y"), cap(b2))...)
+		if o.JSON() != j || o.String() != j {
+			appendok = false
+		}
 		e["appendok"], e["prefixok"] = appendok, prefixok
 		e["valid"] = json.Valid([]byte(j))
 		ast, terr := tokenizeSpecial(j)
